@@ -207,6 +207,24 @@ def c14_receiverBlocked (t : Tr) : Bool :=
      | none => !isConvert t.op || !t.ok)
   | _ => true
 
+/-- the same, with "module account" taken from the application's own table of module accounts
+rather than from the list the bank was given: every module account is on that list -/
+def c14_moduleReceiver (t : Tr) : Bool :=
+  t.env.macc.all (fun a => t.env.blocked.contains a) &&
+  (match t.op with
+   | .k op =>
+     (match convParties op with
+      | some (_, rcv) => !t.ok || !t.env.macc.contains rcv
+      | none => true)
+   | _ => true)
+
+/-- a switch flipped by an accepted parameter update is flipped: the stored switches are the
+requested ones (and a rejected update leaves them alone: `rejected_unchanged`) -/
+def c14_switchesStored (t : Tr) : Bool :=
+  match t.op with
+  | .k (.updateParams _ p) => !t.ok || t.post.st.params == p
+  | _ => true
+
 /-- a third-party receiver while bank sends of the coin are disabled ⇒ rejected -/
 def c14_thirdPartySendDisabled (t : Tr) : Bool :=
   match t.op with
@@ -432,7 +450,7 @@ def monitors : List (String × String × (Tr → Bool)) :=
    ("C15", "register_adds_one", c15_registerAddsOne), ("C15", "toggle_only_flag", c15_toggleOnlyFlag),
    ("C15", "delete_removes_all", c15_deleteRemovesAll), ("C15", "others_keep_registry", c15_othersKeepRegistry),
    ("C15", "grpc_lookups", c15_grpcLookups), ("C15", "rejected_unchanged", rejectedUnchanged),
-   ("C14", "msg_gate", c14_msgGate), ("C14", "receiver_blocked", c14_receiverBlocked),
+   ("C14", "msg_gate", c14_msgGate), ("C14", "receiver_blocked", c14_receiverBlocked), ("C14", "module_receiver", c14_moduleReceiver), ("C14", "switches_stored", c14_switchesStored),
    ("C14", "third_party_send_disabled", c14_thirdPartySendDisabled), ("C14", "hook_gate", c14_hookGate),
    ("C14", "ordinary_transfers", c14_ordinaryTransfers), ("C14", "rejected_unchanged", rejectedUnchanged),
    ("C04", "rejected_unchanged", rejectedUnchanged), ("C04", "success_exact_bank", c04_successExactBank),
